@@ -551,6 +551,44 @@ type Op struct {
 type PreStep struct {
 	Opt string `json:"opt"`
 	Use bool   `json:"use,omitempty"`
+	// Reg: through the derived session a no-op callback is registered / registered
+	// and replaced / registered and removed on the processor Pipe (create, update,
+	// delete). Callbacks are shared by all handles; a no-op changes nothing.
+	Reg  string `json:"reg,omitempty"`
+	Pipe string `json:"pipe,omitempty"`
+}
+
+// registrar is the part of gorm's (unexported) callback processor used here.
+type registrar interface {
+	Register(name string, fn func(*gorm.DB)) error
+	Replace(name string, fn func(*gorm.DB)) error
+	Remove(name string) error
+}
+
+func preRegister(s *gorm.DB, ps PreStep, i int) {
+	var p registrar
+	switch ps.Pipe {
+	case "update":
+		p = s.Callback().Update()
+	case "delete":
+		p = s.Callback().Delete()
+	default:
+		p = s.Callback().Create()
+	}
+	name := fmt.Sprintf("c05:pre%d", i)
+	noop := func(*gorm.DB) {}
+	must := func(err error) {
+		if err != nil {
+			panic("harness: callback " + ps.Reg + ": " + err.Error())
+		}
+	}
+	must(p.Register(name, noop))
+	switch ps.Reg {
+	case "replace":
+		must(p.Replace(name, noop))
+	case "remove":
+		must(p.Remove(name))
+	}
 }
 
 var sessionOptions = map[string]func() *gorm.Session{
@@ -1203,8 +1241,11 @@ func runOnce(base *content, op Op, f fault) (r runResult) {
 		}
 	}()
 	// history before the operation: sessions derived from the default handle
-	for _, ps := range op.Pre {
+	for i, ps := range op.Pre {
 		s := d.DB.Session(sessionOptions[ps.Opt]())
+		if ps.Reg != "" {
+			preRegister(s, ps, i)
+		}
 		if ps.Use {
 			var n int64
 			s.Model(&Owner{}).Count(&n)
@@ -1703,6 +1744,9 @@ func opShapes(op Op, multi bool) []string {
 	}
 	for _, ps := range op.Pre {
 		shape["pre:session:"+ps.Opt] = true
+		if ps.Reg != "" {
+			shape["pre:callback-"+ps.Reg+":"+ps.Pipe] = true
+		}
 		if ps.Use {
 			shape["pre:session-used"] = true
 		}
@@ -2111,7 +2155,25 @@ func drawCase(t *rapid.T) (Case, *content) {
 		op.FullVia = "config"
 	}
 	for i, n := 0, rapid.SampledFrom([]int{0, 0, 1, 1, 2}).Draw(t, "pre-sessions"); i < n; i++ {
-		op.Pre = append(op.Pre, PreStep{Opt: rapid.SampledFrom(sessionOptionNames()).Draw(t, "pre-session"), Use: rapid.Bool().Draw(t, "pre-session-use")})
+		ps := PreStep{Opt: rapid.SampledFrom(sessionOptionNames()).Draw(t, "pre-session"), Use: rapid.Bool().Draw(t, "pre-session-use")}
+		if ps.Reg = rapid.SampledFrom([]string{"", "", "register", "replace", "remove"}).Draw(t, "pre-session-callback"); ps.Reg != "" {
+			// mostly the pipeline the operation itself runs through, and often
+			// through a handle whose settings differ in what the pipelines consult
+			// when they are compiled (the transaction callbacks are registered
+			// with Match(!SkipDefaultTransaction))
+			own := "create"
+			switch kind {
+			case kUpdatesFull, kUpdatesMap, kUpdatesStruct, kUpdateCol:
+				own = "update"
+			case kDelete, kDeleteNote:
+				own = "delete"
+			}
+			ps.Pipe = rapid.SampledFrom([]string{own, own, own, own, "create", "update", "delete"}).Draw(t, "pre-session-pipeline")
+			if rapid.IntRange(0, 2).Draw(t, "pre-session-skips-transaction") == 0 {
+				ps.Opt = rapid.SampledFrom([]string{"SkipDefaultTransaction", "NewDB+SkipDefaultTransaction", "NewDB+SkipDefaultTransaction+SkipHooks"}).Draw(t, "pre-session-skip-option")
+			}
+		}
+		op.Pre = append(op.Pre, ps)
 	}
 	op.Rot = rapid.IntRange(0, len(faultErrors)-1).Draw(t, "error-rotation")
 	switch kind {
@@ -2286,7 +2348,7 @@ const rule = "C05: rapid draws an initial database (0-3 owner graphs, loose comp
 	"Operations on a db.WithContext handle additionally run once per hook invocation with that hook cancelling the context and returning nil (outcome must be stored+nil or nothing stored+error). " +
 	"One case in five of the eligible kinds fails by itself instead (unique-index collision of the last record, no fault injected; must report the constraint error and apply nothing). " +
 	"With RETURNING (dialect default for inserts; Clauses(clause.Returning{}) on half of the save/update/delete operations) every driver.Rows.Next of the operation is failed in turn too (a statement failing while it is executed lazily, visible only through rows.Err()). " +
-	"Before the operation 0-2 sessions with a drawn option set (every field of gorm.Session, with and without NewDB) are derived from the default handle and half of them used for a read; audit-writing hooks may write through tx.Session(NewDB+SkipDefaultTransaction). " +
+	"Before the operation 0-2 sessions with a drawn option set (every field of gorm.Session, with and without NewDB) are derived from the default handle, half of them used for a read, three in five for registering / replacing / removing a no-op callback on the create, update or delete processor; audit-writing hooks may write through tx.Session(NewDB+SkipDefaultTransaction). " +
 	"Further drawn dimensions (each with a class label): value forms (pointer/slice/slice of pointers/array/map/*map/[]map/*[]map; Updates with map, struct, Model(slice); Update with gorm.Expr; UpdateColumn(s); Delete by struct/slice/condition/primary keys/Model()+empty value/sub-query handle; soft-deleted root with and without Unscoped), " +
 	"clauses (OnConflict DoNothing/UpdateAll/column list, Select/Omit of columns, associations, nested paths and Tags.*), options (CreateBatchSize and FullSaveAssociations through Session or Config, PrepareStmt, TranslateError), " +
 	"type shapes (belongs-to by value, has-many of pointers, polymorphic has-one by value, many2many back-reference cycle, SetupJoinTable join model with hooks, >10 children), " +
